@@ -403,7 +403,16 @@ func exprString(fset *token.FileSet, e ast.Expr) string {
 // Registry.v + GasBinding.v from factory.go and the SetNewGasConfig bodies.
 func genRegistry(repo, outDir string) {
 	bif := loadPkg(filepath.Join(repo, "builtInFunctions"))
-	f := bif.files["factory.go"]
+	// the file a function lives in, the name of its receiver and the name of the container field are not part of the
+	// binding: the factory method is looked up by name in the whole package, its receiver is written `b`
+	var f *ast.File
+	for _, cand := range bif.files {
+		for _, d := range cand.Decls {
+			if fd, ok := d.(*ast.FuncDecl); ok && fd.Recv != nil && fd.Body != nil && fd.Name.Name == "CreateBuiltInFunctionContainer" {
+				f = cand
+			}
+		}
+	}
 	reg := &outFile{}
 	reg.p("%s", header)
 	reg.p("(* one entry per `b.builtInFunctions.Add(name, f)` in CreateBuiltInFunctionContainer, in source order:")
@@ -418,7 +427,7 @@ func genRegistry(repo, outDir string) {
 	var entries []entry
 	bad := []string{}
 	if f == nil {
-		bad = append(bad, "factory.go missing")
+		bad = append(bad, "CreateBuiltInFunctionContainer missing")
 	} else {
 		for _, d := range f.Decls {
 			fd, ok := d.(*ast.FuncDecl)
@@ -430,6 +439,9 @@ func genRegistry(repo, outDir string) {
 			// local aliases of selector chains (`builtInCost := b.gasConfig.BuiltInCost`): constructor arguments are reported with the
 			// alias resolved, so that reading a sub-structure once into a local does not change the table
 			alias := map[string]string{}
+			if fd.Recv != nil && len(fd.Recv.List) == 1 && len(fd.Recv.List[0].Names) == 1 {
+				alias[fd.Recv.List[0].Names[0].Name] = "b"
+			}
 			var resolve func(e ast.Expr) string
 			resolve = func(e ast.Expr) string {
 				switch x := e.(type) {
@@ -460,6 +472,11 @@ func genRegistry(repo, outDir string) {
 					continue
 				}
 				fun := exprString(bif.fset, call.Fun)
+				isAdd := false
+				if se, ok := call.Fun.(*ast.SelectorExpr); ok && se.Sel.Name == "Add" && len(call.Args) == 2 {
+					// <receiver>.<container field>.Add(name, object), directly or through a local alias of the field
+					isAdd = strings.HasPrefix(resolve(se.X), "b.") && strings.Count(resolve(se.X), ".") == 1
+				}
 				if strings.HasPrefix(fun, "New") && fun != "NewBuiltInFunctionContainer" {
 					var args []string
 					for _, a := range call.Args {
@@ -468,7 +485,7 @@ func genRegistry(repo, outDir string) {
 					if id, ok := as.Lhs[0].(*ast.Ident); ok {
 						vars[id.Name] = entry{ctor: fun, args: args}
 					}
-				} else if fun == "b.builtInFunctions.Add" && len(call.Args) == 2 {
+				} else if isAdd {
 					nameE := exprString(bif.fset, call.Args[0])
 					v, okv := eval(bif, call.Args[0], 0)
 					id, okid := call.Args[1].(*ast.Ident)
@@ -530,12 +547,30 @@ func genRegistry(repo, outDir string) {
 			}
 			typ := exprString(bif.fset, fd.Recv.List[0].Type)
 			s := setter{typ: strings.TrimPrefix(typ, "*")}
+			// the schedule parameter is written `gasCost` whatever it is called in this method
+			ren := map[string]string{}
+			if fd.Type.Params != nil && len(fd.Type.Params.List) == 1 && len(fd.Type.Params.List[0].Names) == 1 {
+				ren[fd.Type.Params.List[0].Names[0].Name] = "gasCost"
+			}
+			var chain func(e ast.Expr) string
+			chain = func(e ast.Expr) string {
+				switch x := e.(type) {
+				case *ast.Ident:
+					if a, ok := ren[x.Name]; ok {
+						return a
+					}
+					return x.Name
+				case *ast.SelectorExpr:
+					return chain(x.X) + "." + x.Sel.Name
+				}
+				return exprString(bif.fset, e)
+			}
 			ast.Inspect(fd.Body, func(n ast.Node) bool {
 				as, ok := n.(*ast.AssignStmt)
 				if !ok || len(as.Lhs) != 1 || len(as.Rhs) != 1 {
 					return true
 				}
-				s.pairs = append(s.pairs, [2]string{exprString(bif.fset, as.Lhs[0]), exprString(bif.fset, as.Rhs[0])})
+				s.pairs = append(s.pairs, [2]string{exprString(bif.fset, as.Lhs[0]), chain(as.Rhs[0])})
 				return true
 			})
 			setters = append(setters, s)
